@@ -579,7 +579,8 @@ class LoudBool(eqlgen.P):
 
 
 CTOR_KINDS = ["sf_iter", "sf_iter", "pred_iter", "lit_lazy", "let_iterable", "index_key", "single_obj"]
-# finding class of a scenario kind whose construction is NOT silent on the current tree, and the exact construction log recorded
+# finding class of the scenario kinds that were findings C10-e..h (fixed in 6854387 / 7eaaf64 / c877039 / a768d6e: every kind must be silent now;
+# the class and the recorded eager log [ctor_expected] are kept so that a re-opened finding would be matched narrowly)
 CTOR_FINDING = {"lit_lazy": "K_lazyliteral", "let_iterable": "K_letiter", "index_key": "K_indexstr", "single_obj": "K_singlebool"}
 
 
